@@ -123,6 +123,10 @@ func propC02(c *Ctx, r *Report) {
 	})
 	r.floor("cap.opcode", 40)
 	r.Clauses = append(r.Clauses, "cache keys follow what is written (E63): where a type-emitting function writes a field of its parameter only through a mapping function, the key function of its cache uses the mapped value too - keyed on the raw field, two values mapped to the same operand declare the same non-aggregate type twice")
+	r.Clauses = append(r.Clauses, "one class, one treatment (E64): address spaces that the space-to-storage-class function sends to the same class (PushConstant and Immediate) appear together, in the same arm, in every other switch over the address space")
+	c.runSpaceSameClass(r, "space.sameclass", "spirv/internal/codegen", nil)
+	r.floor("space.sameclass", 2)
+	r.floor("space.sharedClasses", 1)
 	c.runCacheKeyMapped(r, "cachekey.mapped", "spirv/internal/codegen")
 	r.floor("cachekey.mapped", 1)
 	r.floor("width.suffix", 6)
